@@ -1577,6 +1577,38 @@ pub fn add_triggers(pb: &mut Pb, mask: u32, base: u64) -> u64 {
         call_extern(&mut s, pb, "memcpy");
         n += 1;
     }
+    if on(17) {
+        // A value computed by a long chain of operations on one register (the expression propagation stops
+        // inlining at a depth limit), compared with a constant, and dereferenced on the taken branch: which
+        // variables the propagated condition and address mention decides whether the pointer inference can
+        // narrow the register to the constant and report the dereference of a NULL-range address.
+        s.ins1(reg("RBX", 8), "INT_XOR", &[reg("R12", 8), reg("R13", 8)]);
+        for i in 0..10 {
+            if i % 2 == 0 {
+                s.ins1(reg("RBX", 8), "INT_MULT", &[reg("RBX", 8), reg("R12", 8)]);
+            } else {
+                s.ins1(reg("RBX", 8), "INT_XOR", &[reg("RBX", 8), reg("R13", 8)]);
+            }
+        }
+        s.ins1(reg("RCX", 8), "INT_ADD", &[reg("RBX", 8), cst(8, 8)]);
+        s.ins1(reg("ZF", 1), "INT_EQUAL", &[reg("RCX", 8), cst(0, 8)]);
+        let a = s.ia + 4; // fall-through: skip
+        let taken = a + 4;
+        let join = taken + 12;
+        s.cbranch(reg("ZF", 1), taken, a);
+        s.begin_block(a);
+        s.branch(join);
+        assert_eq!(s.ia, taken);
+        s.begin_block(taken);
+        s.mov(reg("RAX", 8), reg("RBX", 8));
+        s.op(Some(uniq(0x3300, 8)), "INT_ADD", &[reg("RAX", 8), cst(16, 8)]);
+        s.load(reg("RDX", 8), uniq(0x3300, 8));
+        s.next_insn();
+        s.branch(join); // 3 instructions: mov, add+load, branch = 12 bytes
+        assert_eq!(s.ia, join);
+        s.begin_block(join);
+        n += 1;
+    }
     pb.stats.triggers += n;
     s.epilogue_ret();
     let end = (s.ia + 0x1f) & !0xf;
